@@ -1684,7 +1684,66 @@ SyntaxVisitor::Action TypeChecker::visitBinaryExpression_Logical(
     return Action::Skip;
 }
 
-SyntaxVisitor::Action TypeChecker::visitConditionalExpression(const ConditionalExpressionSyntax*) { return Action::Skip; }
+SyntaxVisitor::Action TypeChecker::visitConditionalExpression(const ConditionalExpressionSyntax* node)
+{
+    VISIT(node->condition());
+    auto condTy = valueTypeOf(ty_);
+    if (!isScalarType(condTy)) {
+        diagReporter_.ExpectedExpressionOfScalarType(node->condition()->lastToken());
+        return typeCheckError(node);
+    }
+
+    // Without a second operand (GNU), the first is the result if nonzero.
+    auto whenTrueTy = condTy;
+    auto whenTrueNode = node->condition();
+    if (node->whenTrue()) {
+        VISIT(node->whenTrue());
+        whenTrueTy = valueTypeOf(ty_);
+        whenTrueNode = node->whenTrue();
+    }
+    VISIT(node->whenFalse());
+    auto whenFalseTy = valueTypeOf(ty_);
+
+    // 6.5.15-3, 5 and 6.
+    const Type* ty = nullptr;
+    if (isArithmeticType(whenTrueTy) && isArithmeticType(whenFalseTy)) {
+        ty = determineCommonRealType(whenTrueTy->asBasicType(),
+                                     whenFalseTy->asBasicType());
+    }
+    else if (whenTrueTy->kind() == TypeKind::Pointer
+                && whenFalseTy->kind() == TypeKind::Pointer) {
+        auto whenTrueRefedTy = unqualifiedAndResolved(
+                    whenTrueTy->asPointerType()->referencedType());
+        auto whenFalseRefedTy = unqualifiedAndResolved(
+                    whenFalseTy->asPointerType()->referencedType());
+        if (whenTrueRefedTy->kind() == TypeKind::Void)
+            ty = whenTrueTy;
+        else if (whenFalseRefedTy->kind() == TypeKind::Void)
+            ty = whenFalseTy;
+        else if (typesAreCompatible(whenTrueRefedTy, whenFalseRefedTy, true, true))
+            ty = whenTrueTy;
+    }
+    else if (whenTrueTy->kind() == TypeKind::Pointer
+                && isNULLPointerConstant(node->whenFalse())) {
+        ty = whenTrueTy;
+    }
+    else if (whenFalseTy->kind() == TypeKind::Pointer
+                && isNULLPointerConstant(whenTrueNode)) {
+        ty = whenFalseTy;
+    }
+    else if ((isStructureOrUnionType(whenTrueTy)
+                    && typesAreCompatible(whenTrueTy, whenFalseTy, false, false))
+                || (whenTrueTy->kind() == TypeKind::Void
+                    && whenFalseTy->kind() == TypeKind::Void)) {
+        ty = whenTrueTy;
+    }
+
+    if (!ty) {
+        diagReporter_.InvalidOperator(node->questionToken());
+        return typeCheckError(node);
+    }
+    return typeChecked(node, ty);
+}
 
 SyntaxVisitor::Action TypeChecker::visitAssignmentExpression(
         const AssignmentExpressionSyntax* node)
